@@ -46,6 +46,7 @@ def run(tier, seed):
     tmp = tempfile.mkdtemp(prefix="c08-")
     try:
         failing = enumerate_all(ck, tmp)
+        failing += names_through_files(ck, tmp)
         ck.cov["exhaustive"] = True
         ck.cov["rule"] = ("complete enumeration: every (key space, name) of spec/registry.json encoded (from_obj.to_cbor) and decoded "
                           "(from_cbor.to_obj) alone through the public API on the implementation and on the extracted model; every "
@@ -55,6 +56,19 @@ def run(tier, seed):
     finally:
         shutil.rmtree(tmp, ignore_errors=True)
 
+
+
+def names_through_files(ck, tmp):
+    """every registered name, as a key and as a value of description FILES (JSON and YAML), comes out of the tool's loaders unchanged
+    (names with blanks such as the CWT claims, names with dashes, underscores, mixed case)"""
+    import glue
+    reg = json.load(open(os.path.join(core.VERIF, "spec", "registry.json")))
+    names = sorted({n for sp in reg["spaces"].values() for n in sp["entries"]})
+    descs = []
+    for i in range(0, len(names), 25):
+        chunk = names[i:i + 25]
+        descs.append({"SUIT_Envelope_Tagged": {n: {"value": n, "list": [n]} for n in chunk}})
+    return glue.loaders_stream(ck, tmp, descs + glue.tricky_descriptions(), label="names-through-files")
 
 def enumerate_all(ck, tmp):
     reg = registry()
@@ -200,6 +214,11 @@ def replay(path):
     inp = rec["input"]
     if inp is None:
         return run("quick", rec.get("seed", 0))
+    if "op" in inp:
+        import glue
+        why = glue.replay(inp)
+        print("REPRODUCED: " + why if why else "not reproduced on the current tree")
+        return 1 if why else 0
     if "description" in inp and isinstance(inp.get("class"), str):
         r = interp.run_impl(interp.impl_encode, inp["class"], inp["description"])
         print("encode ->", short(r))
